@@ -16,6 +16,8 @@ LEMMAS = {
     'C11': ['vspec::lemma_frame_step_progress', 'vspec::lemma_rec_step_progress', 'vfs::lemma_blocks_below_skip', 'vfs::lemma_blocks_below_step'],
     'C12': ['vspec::lemma_parse_ser_items', 'vspec::lemma_rec_step_progress'],
     'C15': ['vspec::lemma_enc_len_bound', 'vspec::lemma_ser_entry_len'],
+    'C16': ['vsum::lemma_wsum_pick', 'vsum::lemma_wsum_insert', 'vsum::lemma_wsum_le', 'vsum::lemma_wsum_eq', 'vsum::lemma_wsum_add', 'vsum::lemma_used_bounds', 'vsum::lemma_used_all_empty',
+            'vsum::lemma_payload_split', 'vsum::lemma_used_truncate', 'mem::queues::MemQueues::lemma_used_is_view', 'mem::queue::MemQueue::lemma_size_spec_view'],
     'C04': ['vspec::lemma_replay_items_is_append_all', 'multi_record_log::lemma_covers', 'multi_record_log::lemma_wal_after_positions_push'],
 }
 
@@ -74,7 +76,7 @@ PROPS = {
                 '(3) E-gate, BOUNDED, native exhaustive enumeration (not symbolic; CBMC exceeds 12 GB on any BTreeSet<FileNumber>): for trackers of 1..=5 files and every subset of pinned files, the GC gate has_files_that_can_be_deleted() is true exactly when a GC pass removes a file, and the pass removes exactly the unpinned prefix short of the last file.',
         kani_quick=['K-handles', 'E-gate'], kani_thorough=[],
         trusted=['everything outside the harness'],
-        not_decided=['that can_be_deleted() is true exactly when no queue retains a record of the file (Arc strong counts; bounded K-handles only)', 'FileTracker::{next,inc} (BTreeSet::range)', 'the directory listing itself', 'disk_used_bytes'],
+        not_decided=['that can_be_deleted() is true exactly when no queue retains a record of the file (Arc strong counts; bounded K-handles only)', 'FileTracker::{next,inc} (BTreeSet::range)', 'the directory listing itself', 'disk_used_bytes == tracked files x 128 MiB is verified in resource_usage over the ASSUMED contract of RollingWriter::size (O-C06-disk-used); that the files on disk have that size is not'],
     ),
     'C07': dict(
         level='proof',
@@ -147,9 +149,15 @@ PROPS = {
     ),
     'C16': dict(
         level='proof',
-        explain='Per queue: size() == payload bytes + metas * size_of::<RecordMeta>() (O-C16-size), capacity() >= size (O-C16-cap), an emptied queue has no payload bytes (wf).',
-        kani_quick=[], kani_thorough=[], trusted=['Vec/VecDeque capacity >= len (std)'],
-        not_decided=['MemQueues::size (sum over a HashMap iterator) and the name bytes', 'capacity actually shrinking (std)'],
+        explain='Per queue: size() == payload bytes + metas * size_of::<RecordMeta>() (O-C16-size, O-C16-size-view), capacity() >= size (O-C16-cap), an emptied queue has no payload bytes (wf). '
+                'Whole log: resource_usage() is verified to return memory_used_bytes == used_view(view, c) (O-C16-used), the weighted sum over the abstract state of name bytes + retained payload bytes + c per retained record '
+                '(so: at least names + payload, and above them by exactly c per retained record: O-C16-bounds), memory_allocated_bytes >= memory_used_bytes (O-C16-alloc), the names-only baseline when every queue is empty (O-C16-baseline), '
+                'and truncate lowers used_view by exactly the evicted payload bytes plus c per evicted record (O-C16-api-trunc, from the view transition and the spec lemma lemma_used_truncate). '
+                'The sums are defined order-independently over finite maps (spec/vsum.rs: wsum and its lemmas, proved once).',
+        kani_quick=[], kani_thorough=[],
+        trusted=['MemQueues::size (ASSUMED contract A-mqs-size: the two `iter().map(closure).sum()` chains are the sums of name.len() + queue.size() and of name.capacity() + queue.capacity(); iterator adapters with a tuple-pattern closure are outside Verus)',
+                 'Vec / VecDeque / String capacity >= len (std)'],
+        not_decided=['capacity actually shrinking after a truncation (std shrink_to heuristics)', 'overflow of the two sums (usize; physical bound)'],
     ),
     'C17': dict(
         level='proof',
